@@ -11,7 +11,8 @@ RULE = ("Every sequence of up to N operations deepen()/make_children(leaf) on th
         "answered from the script (<= k departures from the default answer); per expansion the exact split facts "
         "(arity, containment, bit-identical shared boundaries, parent's own outer faces, equal widths and centres against "
         "exact rational arithmetic), per state exact-rational leaf volumes and pairwise interior-disjointness.  The same "
-        "oracles run inside E-full/E-dev explorations of tree-growing algorithms.  distinct_nontrivial = distinct final trees.")
+        "oracles run inside E-full/E-dev explorations of tree-growing algorithms, and inside long runs (150, thorough 300 expansions of one "
+        "partition object per variant: states reached only late).  distinct_nontrivial = distinct final trees.")
 ASSUMPTIONS = ["NumPy arithmetic; np.linspace end points", "finite box alphabet (coverage.bounds.boxes): the property's "
                "'arbitrary real bounds' is decided only on these boxes", "near-overflow magnitudes (>1e300) not explored"]
 VACUITY = [("expansions", "no expansion observed")]
@@ -35,6 +36,18 @@ def tasks(tier, seed):
                 ts.append({"kind": "algo", "label": "dev/%s/%s%s/%s" % (algo, part, K or "", box), "cfg": cfg,
                            "mode": "dev", "T": (30 if (K or 2) <= 3 else 12) if tier == "quick" else 80, "R": list(configs.R2), "base": "peak",
                            "k": 1 if tier == "quick" else 2, "max_exec": 1500 if tier == "quick" else 40000})
+    # long runs: one partition object expanded 150 (thorough 300) times in a row (state reached only late in a run), default
+    # answers with <= 0 (thorough 1) departures
+    for algo in ("T_HOO", "SOO"):
+        for part, K in configs.PART_VARIANTS:
+            for box in ("nd1", "mix2"):
+                if box == "mix2" and algo == "SOO":
+                    continue
+                T = 150 if tier == "quick" else 300
+                params = configs.default_params(algo, T)
+                cfg = configs.cfg(algo, part, K, configs.BOXES[box], **params)
+                ts.append({"kind": "algo", "label": "long/%s/%s%s/%s" % (algo, part, K or "", box), "cfg": cfg, "mode": "dev", "T": T,
+                           "R": list(configs.R2), "base": "twopeak", "k": 0 if tier == "quick" else 1, "max_exec": 400, "cost": 6})
     return ts
 
 
